@@ -238,3 +238,38 @@ Fixpoint fs_insert (x : Z) (l : list Z) : list Z :=
   | y :: r => if x <? y then x :: l else if x =? y then l else y :: fs_insert x r
   end.
 Definition fs_of_list (l : list Z) : list Z := fold_left (fun acc x => fs_insert x acc) l [].
+
+(* ------------------------------------------------------------------------------------------ *)
+(* Dictionaries: a dict is the list of its (key, value) pairs in insertion order; assigning to a
+   key that is present keeps the key object and its position and replaces the value.  [eqb] is
+   `==` on keys (hashing is not modelled). *)
+Definition opt_eqb {A : Type} (eqb : A -> A -> bool) (a b : option A) : bool :=
+  match a, b with Some x, Some y => eqb x y | None, None => true | _, _ => false end.
+
+Fixpoint dict_set {K V : Type} (eqb : K -> K -> bool) (k : K) (v : V) (d : list (K * V)) : list (K * V) :=
+  match d with
+  | [] => [(k, v)]
+  | (k', v') :: r => if eqb k k' then (k', v) :: r else (k', v') :: dict_set eqb k v r
+  end.
+
+(* {fk x: fv x for x in l} *)
+Definition dict_of {K V A : Type} (eqb : K -> K -> bool) (fk : A -> K) (fv : A -> V) (l : list A) : list (K * V) :=
+  fold_left (fun d x => dict_set eqb (fk x) (fv x) d) l [].
+
+(* d[k]; a missing key (KeyError) gives the default: see py_index *)
+Fixpoint dict_get {K V : Type} (eqb : K -> K -> bool) (dflt : V) (k : K) (d : list (K * V)) : V :=
+  match d with
+  | [] => dflt
+  | (k', v) :: r => if eqb k k' then v else dict_get eqb dflt k r
+  end.
+
+Definition dict_has {K V : Type} (eqb : K -> K -> bool) (k : K) (d : list (K * V)) : bool :=
+  existsb (fun kv => eqb k (fst kv)) d.
+
+(* d1.keys() & d2.keys(): a SET; iterating it visits the common keys in an order Python does not
+   specify.  TRUSTED READING: the insertion order of d1 (the order the models use). *)
+Definition keys_inter {K V W : Type} (eqb : K -> K -> bool) (d1 : list (K * V)) (d2 : list (K * W)) : list K :=
+  filter (fun k => dict_has eqb k d2) (map fst d1).
+
+(* a non-negative counter held as N, incremented by an int *)
+Definition N_plus_Z (n : N) (z : Z) : N := Z.to_N (Z.of_N n + z).
